@@ -783,7 +783,6 @@ fn exhaustive_lengths(seed: u64) -> (u64, Vec<J>, Option<(Fail, J)>) {
     (n, samples, None)
 }
 
-
 // ---------------------------------------------------------------------------------------------
 // several communication sessions through ONE reader: Reader::reset() between them
 
@@ -981,8 +980,16 @@ impl Prop for Sessions {
                 dirty = true;
             }
             let complete = rl::scan_discard(&all);
-            let last_end = complete.frames.last().map(|(at, f)| at + rl::encode(f.ctrl, f.dst, f.src, &f.payload).len()).unwrap_or(0);
-            if all[last_end.min(all.len())..].windows(2).any(|w| w == [0x05, 0x64]) || all.last() == Some(&0x05) {
+            let last_end = complete
+                .frames
+                .last()
+                .map(|(at, f)| at + rl::encode(f.ctrl, f.dst, f.src, &f.payload).len())
+                .unwrap_or(0);
+            if all[last_end.min(all.len())..]
+                .windows(2)
+                .any(|w| w == [0x05, 0x64])
+                || all.last() == Some(&0x05)
+            {
                 out.label("ended_inside_frame");
                 dirty = true;
             }
